@@ -5,7 +5,7 @@ from harness.props import c10
 
 
 def one(args):
-    import assembler, file_util
+    assembler, file_util = hostrun.import_cli("assembler", "file_util")
     k, cfg = args
     W = tempfile.mkdtemp(prefix="c11", dir=os.environ.get("VERIF_SCRATCH"))
     try:
